@@ -467,7 +467,18 @@ def gate_rule(ctx, r):
         v1 = {x for v in s1.ret_values.values() for x in value_set(v)}
         reads = [bb for bb, j, st in h.stmts() if st["k"] == "assign" and st["place"]["l"] == 0 and
                  st["rv"]["k"] == "use" and op_place(st["rv"]["a"]) and (R + "::config::Config", "line_terminator") in fields_of_place(op_place(st["rv"]["a"]))]
-        if v1 == {V("None", None)} and reads and not guarded(h, reads, an, False):
+        # the set that is tested must be the set of *all* look-arounds of the pattern (Properties::look_set), not the
+        # prefix/suffix variants, which hold only what is guaranteed on every path (an alternation with \\A in one branch
+        # would slip through)
+        whole = all(any(x.k == "call" and x[1].endswith("Properties::look_set") for x in walk(e)) and
+                    not any(x.k == "call" and x[1].split("::")[-1] in ("look_set_prefix", "look_set_suffix", "look_set_prefix_any",
+                                                                       "look_set_suffix_any") for x in walk(e))
+                    for bb, te, fe, e in an)
+        if not whole:
+            r.bad("anchors", "ConfiguredHIR::line_terminator looks for haystack anchors in a partial look set (prefix/suffix), not "
+                  "in Properties::look_set(): \\A or \\z inside one alternation branch keeps the terminator promise and the fast "
+                  "line path then evaluates it against the scan position", fn=h, construct="anchors")
+        elif v1 == {V("None", None)} and reads and not guarded(h, reads, an, False):
             r.ok("anchors", "\\A / \\z in the pattern ⇒ no terminator promise; otherwise the configured one", fn=h)
         else:
             r.bad("anchors", "ConfiguredHIR::line_terminator promises a terminator despite haystack anchors", fn=h, construct="anchors")
